@@ -39,11 +39,21 @@ def storage_history(case):
     try:
         ts = [_u.ImplicitVRLittleEndian, _u.ExplicitVRLittleEndian][case['ts']]
         before = {}
+        ops = []
         for n in case.get('pre', []):        # files an earlier run of the server left in the directory
             with open(os.path.join(d, n), 'wb') as fh:
                 fh.write(b'OLD ' + n.encode())
             before[n] = b'OLD ' + n.encode()
         for k, uid in enumerate(case['uids']):
+            if isinstance(uid, list):
+                # something else (an archiver, an operator) takes one of the stored files away: ['rm', index of the store]
+                victim = sorted(before)[uid[1] % len(before)] if before else None
+                if victim:
+                    os.remove(os.path.join(d, victim))
+                    del before[victim]
+                    head, _, tail = victim.partition('.dcm')
+                    ops.append('r:%s:%d' % (head, len(tail.split('_')) - 1 if tail else 0))
+                continue
             cs = pydicom.Dataset(); cs.AffectedSOPClassUID = IMG; cs.AffectedSOPInstanceUID = uid
             ctx = ap.PContextDef(1, _u.UID(IMG), ts)
             f, start = pynetdicom2._get_storage_file(ctx, cs, d)
@@ -63,6 +73,19 @@ def storage_history(case):
             if not after[new[0]].endswith(payload) or after[new[0]][128:132] != b'DICM':
                 return 'store #%d: the new file does not hold the instance' % (k + 1)
             before = after
+            ops.append('s:%s:%s' % (uid, payload.hex()))
+        # correspondence with the Lean directory model (Store.applyOps): same files, same names, same contents
+        if not case.get('pre'):
+            got = []
+            for n in sorted(before):
+                head, _, tail = n.partition('.dcm')
+                ks = [int(x) for x in tail.split('_')[1:]] if tail else []
+                if ks != list(range(1, len(ks) + 1)):
+                    return 'file name %r is not on the chain uid.dcm, uid.dcm_1, uid.dcm_1_2, ...' % n
+                got.append('%s#%d=%s' % (head, len(ks), before[n][before[n].index(b'PAYLOAD'):].hex()))
+            want = common.driver(['dir-ops ' + ' '.join(ops)])[0]
+            if ' '.join(sorted(got)) != ' '.join(sorted(want.split())):
+                return 'model:the directory differs from the model after %r\nimpl  %s\nmodel %s' % (ops, ' '.join(sorted(got))[:300], want[:300])
         return None
     finally:
         shutil.rmtree(d, ignore_errors=True)
@@ -172,7 +195,7 @@ def guarded(case):
 
 
 def replay(case):
-    return common.bounded_map(guarded, [case], 1, 300)[0]     # in a worker: a hang inside the library is a verdict
+    return common.bounded_map(guarded, [case], 1, 120)[0]     # in a worker: a hang inside the library is a verdict
 
 
 def run(chk):
@@ -191,6 +214,10 @@ def run(chk):
                  ['9.1', '9.2', '9.3'], ['7.7', '7.7', '8.8', '7.7', '7.7', '8.8', '8.8', '7.7']):
         for ts in (0, 1):
             cases.append({'kind': 'dir', 'uids': hist, 'ts': ts})
+    # an earlier copy is taken away between two stores of the same instance: the copies that remain must survive
+    for hist in (['1.2.3', '1.2.3', ['rm', 0], '1.2.3'], ['1.2.3', '1.2.3', '1.2.3', ['rm', 1], '1.2.3', '1.2.3'],
+                 ['4.4', '4.4', ['rm', 0], ['rm', 0], '4.4', '4.4'], ['1.2.3', '1.2.4', '1.2.3', ['rm', 0], '1.2.4', '1.2.3']):
+        cases.append({'kind': 'dir', 'uids': hist, 'ts': 0})
     # the directory already holds files of an earlier run (another process): they must survive too
     cases.append({'kind': 'dir', 'uids': ['1.2.3'], 'ts': 0, 'pre': ['1.2.3.dcm']})
     cases.append({'kind': 'dir', 'uids': ['1.2.3', '1.2.3'], 'ts': 1, 'pre': ['1.2.3.dcm', '1.2.3.dcm_1']})
@@ -204,7 +231,8 @@ def run(chk):
         uids = ['1.2.840.%d.%d' % (i, rnd.randrange(2)) for _ in range(k)] if i % 2 else ['1.2.840.%d.1' % i] * k
         cli_max, srv_max = limits[i % len(limits)]
         lim = min(x for x in (cli_max or 65536, srv_max or 65536))
-        # every outgoing fragment costs the provider one 50 ms poll: keep each message under ~80 fragments
+        # keep each message under ~80 fragments (before repair D24 every fragment cost 50 ms; the one big case below is
+        # the one that shows that defect)
         cap = max(0, 80 * (lim - 6) - 400)
         sizes = [min(cap, rnd.choice([0, 1, 5, 200, 3000, 20000])) for _ in range(k)]
         cases.append({'kind': 'stack', 'seed': seed, 'ts': i % 3, 'cli_max': cli_max, 'srv_max': srv_max, 'uids': uids, 'sizes': sizes,
@@ -215,10 +243,13 @@ def run(chk):
     seed += 1
     cases.append({'kind': 'stack', 'seed': seed, 'ts': 0, 'cli_max': 16384, 'srv_max': 16384, 'uids': ['1.2.840.99.1'], 'sizes': [6000000],
                   'source': 'memory', 'sink': 'tmp', 'outcomes': [0], 'timeout': 15})
-    results = common.bounded_map(guarded, cases, min(8, os.cpu_count() or 1), 300)
+    results = common.bounded_map(guarded, cases, min(8, os.cpu_count() or 1), 120)
     for case, v in zip(cases, results):
         if v and v.startswith('harness:'):
             common.raise_for(v[len('harness:'):])
+        if v and v.startswith('model:'):
+            chk.broke('correspondence Store.applyOps (names and contents of the storage directory)', v[len('model:'):], case)
+            v = None
         chk.case(repr(case), True, {k: case[k] for k in case if k not in ('seed',)} if len(chk.samples) < 6 else None)
         chk.count('kind:' + case['kind'])
         if case['kind'] == 'stack':
@@ -226,7 +257,7 @@ def run(chk):
         if v:
             if common.timing_verdict(v) and case['kind'] == 'stack':
                 # a verdict that depends on real time (threads, 50 ms polls, timeouts) counts only if it reproduces twice more
-                again = common.bounded_map(guarded, [case, case], 2, 300)
+                again = common.bounded_map(guarded, [case, case], 2, 120)
                 if not all(again):
                     chk.count('timing-verdict-not-reproduced'); continue
             chk.violation('C15:%s:%s' % (case['kind'], v[:25]), v, case)
